@@ -155,6 +155,22 @@ def join(cs):
     return "/" + "/".join(cs)
 
 
+def py_paths(git_dir, common):
+    """Model/Conc.lean: aiDir, rewriteLogFile, notesRef (the driver's conc_aidir answer)"""
+    if git_dir == common:
+        ai = common + ["ai"]
+    else:
+        leaf = git_dir[-1] if git_dir and git_dir[-1] else "default"
+        fallback = common + ["ai", "worktrees", leaf]
+        pre = common + ["worktrees"]
+        if git_dir[:len(pre)] == pre and len(git_dir) > len(pre):
+            ai = common + ["ai", "worktrees"] + git_dir[len(pre):]
+        else:
+            ai = fallback
+    return {"ai": ai, "rewrite_log": ai + ["rewrite_log"], "notes_ref": common + ["refs", "notes", "ai"],
+            "checkpoints": ai + ["working_logs", "S", "checkpoints.jsonl"]}
+
+
 class World:
     """One scratch repository with linked worktrees, the model's view of its cells, and the commands."""
 
@@ -177,9 +193,11 @@ class World:
         for w in self.wts:
             rc, out, _ = w.plain_git("rev-parse", "--absolute-git-dir")
             self.gitdirs.append(os.path.realpath(out.strip()))
-        # the model's path function decides where we look for the cells
-        resp = C.run_driver([{"op": "conc_aidir", "git_dir": comps(g), "common": comps(self.common)} for g in self.gitdirs])
-        self.paths = resp
+        # where we look for the cells: a transcription of Model/Conc.lean:aiDir; `path_requests`
+        # are replayed on the Lean driver by the check (one batch) and must give these very paths
+        self.paths = [py_paths(comps(g), comps(self.common)) for g in self.gitdirs]
+        self.path_requests = [({"op": "conc_aidir", "git_dir": comps(g), "common": comps(self.common)}, p)
+                              for g, p in zip(self.gitdirs, self.paths)]
         self.commit_ids = {}      # sha -> commit id (ids ≥ 1000 name pre-existing commits)
         self.next_pre = 1000
         self.fake_events = {}     # fake sha -> event id
@@ -321,6 +339,8 @@ class ScenarioRun:
         self.rcs = []
         self.commit_sha = {}                       # commit cmd id -> sha
         self.keys = set()
+        self.key_wt = {}
+        self.max_events = 200
         self.step_times = []
 
     # ---- commands
@@ -339,6 +359,7 @@ class ScenarioRun:
             base = w.base_of(cmd["wt"])
             key = w.ckpt_key(cmd["wt"], base)
             self.keys.add(tuple(key))
+            self.key_wt[tuple(key)] = cmd["wt"]
             self.ops[pid].append({"k": "ckpt", "key": key, "id": cmd["id"], "author": cmd["id"], "edits": cmd["edits"]})
             payload = {"type": "ai_agent", "repo_working_dir": repo.path,
                        "edited_filepaths": [file_name(f) for f, _ in cmd["edits"]],
@@ -500,19 +521,21 @@ def model_request(run, mode):
             "schedule": run.model_sched, "query": [list(k) for k in keys]}
 
 
-def compare_with_model(run, obs, resp):
-    """list of disagreements between the model's prediction and what was observed"""
+def compare_with_model(cmp, resp):
+    """cmp = {phys: [(pid, point, next point)…], keys: sorted cell keys, obs: observed cells};
+    returns the list of disagreements between the model's prediction and what was observed"""
     bad = []
-    if "driver_error" in resp or "error" in resp:
+    if not isinstance(resp, dict) or "driver_error" in resp or "error" in resp:
         return [{"what": "driver", "detail": resp}]
-    phys = [t for (_, pt, nxt) in run.phys for t in phys_tag(pt, nxt)]
+    phys = [t for (_, pt, nxt) in cmp["phys"] for t in phys_tag(pt, nxt)]
     mtrace = [norm_tag(t) for t in resp["trace"]]
     if phys != mtrace:
         bad.append({"what": "trace", "observed": phys, "model": mtrace,
-                    "steps": [(pid, pt) for (pid, pt, _) in run.phys]})
+                    "steps": [(pid, pt) for (pid, pt, _) in cmp["phys"]]})
     if not resp.get("finished"):
         bad.append({"what": "model-not-finished"})
-    for k, mv in zip(sorted(run.keys), resp["cells"]):
+    obs = cmp["obs"]
+    for k, mv in zip(cmp["keys"], resp["cells"]):
         ov = obs.get(k)
         if ov is None:
             bad.append({"what": "cell-unreadable", "key": join(k)})
